@@ -155,4 +155,13 @@ def fromPyshpV (k : Kind) (s : ShpShapeR) (dt : V) (props : Dict PVal) : Except 
   let d ← dtOfArg dt
   pure { geom := g, dt := d, props := props }
 
+/-! ## GeoPandas -/
+
+/-- a `set` of strings: its iteration order is modelled as first-insertion order (as `keyUnion` of `Model/Io.lean`) -/
+def strSet (xs : List String) : List String := (dictOf (xs.map fun k => (k, ()))).map (·.1)
+
+/-- `include_properties or <keys>` -/
+def inclOr (incl : Option (List String)) (other : List String) : List String :=
+  if inclTruthy incl then incl.getD [] else other
+
 end GV.Io.Py
